@@ -1082,9 +1082,8 @@ private:
                 return;
             }
             rate_identity = hashed_token_identity(token_it->second);
-        } else if (token_it != request.fields.end()) {
-            rate_identity = hashed_token_identity(token_it->second);
         }
+        // Without a configured token the TOKEN header is unauthenticated input and must not select the bucket.
 
         std::chrono::seconds ttl = default_ttl;
         if (const auto ttl_it = request.fields.find("TTL"); ttl_it != request.fields.end()) {
@@ -1324,8 +1323,6 @@ private:
         if (stream_to_client) {
             std::string rate_identity = remote_identity;
             if (control_token.has_value()) {
-                rate_identity = hashed_token_identity(token_it->second);
-            } else if (token_it != fields.end()) {
                 rate_identity = hashed_token_identity(token_it->second);
             }
 
